@@ -110,6 +110,8 @@ type Options struct {
 	EmptyContainerNull bool
 	// OrderedMaps keeps wire order of map entries (default: sorted as a set).
 	OrderedMaps bool
+	// IgnoreDateValue renders every date alike (the instant is another check's subject).
+	IgnoreDateValue bool
 }
 
 type canon struct {
@@ -182,6 +184,10 @@ func (c *canon) walk(v *V) {
 		}
 		fmt.Fprintf(&c.sb, "b%x", v.Bin)
 	case Date:
+		if c.opt.IgnoreDateValue {
+			c.sb.WriteString("t")
+			return
+		}
 		c.sb.WriteString("t" + strconv.FormatInt(v.I, 10))
 	case List, Map, Object:
 		if len(v.Elems) == 0 && v.K != Object && c.opt.EmptyContainerNull {
